@@ -134,6 +134,23 @@ static void run(void) {
                         vf_add("special.cells", 1);
                     }
             }
+            /* face-assignment slivers along the icosahedron edges */
+            {
+                H3Index es[4000];
+                int ne = vf_edge_offset_seeds(res, es, 4000);
+                for (int i = 0; i < ne; i++) {
+                    if (!VF_MINE(idx++)) continue;
+                    H3Index d1[7] = {0};
+                    vf_case("nbhd %016" PRIx64 " 1", es[i]);
+                    if (gridDisk(es[i], 1, d1)) continue;
+                    for (int j = 0; j < 7; j++)
+                        if (d1[j]) {
+                            roundtrip(d1[j]);
+                            vf_distinct(d1[j]);
+                            vf_add("edge_sliver.cells", 1);
+                        }
+                }
+            }
             int nr = VF_T(4000, 60000);
             for (int i = 0; i < nr; i++) {
                 H3Index h = vf_rand_cell(&r, res);
